@@ -18,11 +18,14 @@ Global Instance errno_eq_dec : EqDecision errno. Proof. solve_decision. Defined.
 Global Instance err_eq_dec : EqDecision err. Proof. solve_decision. Defined.
 
 Record watch := mkWatch { w_wd : N; w_flags : N; w_path : string; w_rec : bool }.
+Record ringst := mkRing {
+  rg : list (N * string);         (* cookies [ring_len]koekje *)
+  rg_ix : nat                     (* cookieIndex *)
+}.
 Record wstate := mkW {
   t_wd : gmap N watch;            (* watches.wd   : wd -> watch *)
   t_path : gmap string N;         (* watches.path : pathname -> wd *)
-  ring : list (N * string);       (* cookies [ring_len]koekje *)
-  ring_ix : nat                   (* cookieIndex *)
+  w_ring : ringst
 }.
 
 Inductive output := OEv (name : string) (op : N) (from : string) | OErr (e : err).
@@ -34,7 +37,8 @@ Definition has_all (m k : N) : bool := N.land m k =? k.
 Definition has_any (m k : N) : bool := negb (N.land m k =? 0).
 
 Definition ring_len : nat := 10.
-Definition init_w : wstate := mkW ∅ ∅ (replicate ring_len (0, EmptyString)) 0.
+Definition init_ring : ringst := mkRing (replicate ring_len (0, EmptyString)) 0.
+Definition init_w : wstate := mkW ∅ ∅ init_ring.
 
 (* ---------------------------------------------------------------- abstract inotify kernel *)
 (* marks: wd -> inode.  The filesystem is not modelled: what a path resolves to is an input of each step. *)
@@ -66,7 +70,7 @@ Definition rm_watch (k : kernel) (wd : N) : kernel * option errno :=
 
 (* ---------------------------------------------------------------- tables *)
 Definition by_wd (W : wstate) (wd : N) : option watch := t_wd W !! wd.
-Definition set_tables (W : wstate) (a : gmap N watch) (b : gmap string N) : wstate := mkW a b (ring W) (ring_ix W).
+Definition set_tables (W : wstate) (a : gmap N watch) (b : gmap string N) : wstate := mkW a b (w_ring W).
 
 (* watches.remove(watch) *)
 Definition remove_watch (W : wstate) (x : watch) : wstate :=
@@ -154,23 +158,22 @@ Definition watch_list (W : wstate) : list string := (map_to_list (t_path W)).*1.
 (* ---------------------------------------------------------------- newEvent: translation + cookie ring *)
 Definition translate (mask : N) : N := doc_union inotify_doc mask.
 
-Definition ring_store (W : wstate) (cookie : N) (path : string) : wstate :=
-  let ix := ring_ix W in
-  let ix' := if Nat.ltb 9 (S ix) then 0%nat else S ix in
-  mkW (t_wd W) (t_path W) (<[ix := (cookie, path)]> (ring W)) ix'.
+Definition ring_store (R : ringst) (cookie : N) (path : string) : ringst :=
+  let ix := rg_ix R in
+  mkRing (<[ix := (cookie, path)]> (rg R)) (if Nat.ltb 9 (S ix) then 0%nat else S ix).
 
-Definition ring_lookup (W : wstate) (cookie : N) : string :=
-  match list_find (λ c, c.1 = cookie) (ring W) with
+Definition ring_lookup (R : ringst) (cookie : N) : string :=
+  match list_find (λ c, c.1 = cookie) (rg R) with
   | Some (_, (_, p)) => p
   | None => EmptyString
   end.
 
-Definition new_event (W : wstate) (name : string) (mask cookie : N) : wstate * (string * N * string) :=
+Definition new_event (R : ringst) (name : string) (mask cookie : N) : ringst * (string * N * string) :=
   let op := translate mask in
-  if cookie =? 0 then (W, (name, op, EmptyString))
-  else if has_all mask IN_MOVED_FROM then (ring_store W cookie name, (name, op, EmptyString))
-  else if has_all mask IN_MOVED_TO then (W, (name, op, ring_lookup W cookie))
-  else (W, (name, op, EmptyString)).
+  if cookie =? 0 then (R, (name, op, EmptyString))
+  else if has_all mask IN_MOVED_FROM then (ring_store R cookie name, (name, op, EmptyString))
+  else if has_all mask IN_MOVED_TO then (R, (name, op, ring_lookup R cookie))
+  else (R, (name, op, EmptyString)).
 
 (* ---------------------------------------------------------------- handleEvent *)
 (* [dirs]: what directory names resolve to, should a recursive watch have to register a new directory *)
@@ -196,6 +199,38 @@ Definition rewrite_paths (W : wstate) (skip_wd : N) (old new : string) : wstate 
             else x) (t_wd W))
     (t_path W).
 
+(* the watched path itself was deleted (the kernel has dropped the watch) or moved (we drop it): returns the new
+   tables/kernel, an error to send after the lock is released, and whether handling stops here *)
+Definition end_of_watch (enable : bool) (W : wstate) (K : kernel) (x : watch) (mask : N)
+  : wstate * kernel * option err * bool :=
+  let W1 := if has_all mask IN_DELETE_SELF then remove_watch W x else W in
+  if has_all mask IN_MOVE_SELF then
+    if w_rec x then (W1, K, None, true)
+    else
+      let '(Wr, Kr, e) := remove enable W1 K (w_path x) in
+      let pend := match e with
+                  | Some ErrNonExistentWatch => None
+                  | Some (ErrNo EINVAL) => None       (* the kernel watch is gone already *)
+                  | other => other
+                  end in
+      (Wr, Kr, pend, false)
+  else (W1, K, None, false).
+
+(* build and deliver the event (or suppress the delete that the watched parent reports) *)
+Definition deliver (cwd : string) (W2 : wstate) (K2 : kernel) (dirs : list (string * N)) (x : watch) (r : raw)
+  (name : string) (pre : list output) (pending : option err) : wstate * kernel * list output :=
+  let mask := r_mask r in
+  if has_any mask IN_DELETE_SELF && bool_decide (is_Some (t_path W2 !! dir (w_path x)))
+  then (W2, K2, pre ++ opt_err pending)
+  else
+    let '(R3, ev) := new_event (w_ring W2) name mask (r_cookie r) in
+    let W3 := mkW (t_wd W2) (t_path W2) R3 in
+    if w_rec x && has_all mask IN_ISDIR && has_any ev.1.2 Create then
+      let '(W4, K4, rerr) := register W3 K2 ev.1.1 (w_flags x) true (lookup_dir cwd dirs ev.1.1) in
+      let W5 := if String.eqb ev.2 EmptyString then W4 else rewrite_paths W4 (w_wd x) ev.2 ev.1.1 in
+      (W5, K4, pre ++ opt_err rerr ++ ev_out ev)
+    else (W3, K2, pre ++ opt_err pending ++ ev_out ev).
+
 Definition handle (enable : bool) (cwd : string) (W : wstate) (K : kernel) (dirs : list (string * N)) (r : raw)
   : wstate * kernel * list output :=
   let mask := r_mask r in
@@ -206,29 +241,6 @@ Definition handle (enable : bool) (cwd : string) (W : wstate) (K : kernel) (dirs
     let name := if r_len r =? 0 then w_path x else w_path x +:+ "/" +:+ r_name r in
     if has_any mask IN_IGNORED || has_any mask IN_UNMOUNT then (remove_watch W x, K, pre)
     else
-      let W1 := if has_all mask IN_DELETE_SELF then remove_watch W x else W in
-      (* IN_MOVE_SELF: the name can no longer be tracked: drop the watch *)
-      let '(W2, K2, pending, stop) :=
-        if has_all mask IN_MOVE_SELF then
-          if w_rec x then (W1, K, None, true)
-          else
-            let '(Wr, Kr, e) := remove enable W1 K (w_path x) in
-            let pend := match e with
-                        | Some ErrNonExistentWatch => None
-                        | Some (ErrNo EINVAL) => None       (* the kernel watch is gone already *)
-                        | other => other
-                        end in
-            (Wr, Kr, pend, false)
-        else (W1, K, None, false) in
-      if stop then (W2, K2, pre)
-      else if has_any mask IN_DELETE_SELF && bool_decide (is_Some (t_path W2 !! dir (w_path x)))
-      then (W2, K2, pre ++ opt_err pending)
-      else
-        let '(W3, ev) := new_event W2 name mask (r_cookie r) in
-        let '(evn, evop, evfrom) := ev in
-        if w_rec x && has_all mask IN_ISDIR && has_any evop Create then
-          let '(W4, K4, rerr) := register W3 K2 evn (w_flags x) true (lookup_dir cwd dirs evn) in
-          let W5 := if String.eqb evfrom EmptyString then W4 else rewrite_paths W4 (w_wd x) evfrom evn in
-          (W5, K4, pre ++ opt_err rerr ++ ev_out ev)
-        else (W3, K2, pre ++ opt_err pending ++ ev_out ev)
+      let '(W2, K2, pending, stop) := end_of_watch enable W K x mask in
+      if stop then (W2, K2, pre) else deliver cwd W2 K2 dirs x r name pre pending
   end.
